@@ -1,2 +1,150 @@
-/- driver stub for C16: replaced when the model exists -/
-def main : IO Unit := pure ()
+/- driver for C16: change-of-value reporting (stateful, one scenario after each "reset") -/
+import BacVerif.Drv.Common
+import BacVerif.Model.Cov
+open Lean BacVerif BacVerif.Drv BacVerif.Cov
+
+def jInt (i : Int) : Json := toJson i
+def jIntOpt : Option Int → Json
+  | none => Json.null
+  | some i => jInt i
+
+def fldOptBool (j : Json) (k : String) : R (Option Bool) :=
+  match fldOpt j k with
+  | none => pure none
+  | some v => do pure (some (← v.getBool?))
+
+def jOut : Out → Json
+  | .ack a => Json.arr #["ack", a]
+  | .error a .unknownObject => Json.arr #["err", a, "object", "unknownObject"]
+  | .error a .covSubscriptionFailed => Json.arr #["err", a, "services", "covSubscriptionFailed"]
+  | .notify a p o c pv fl r => Json.arr #["ntf", a, p, o, c, jInt pv, fl, jInt r]
+  | .raised => Json.arr #["raised"]
+
+def jSub (c : Sub) : Json :=
+  Json.arr #[c.addr, c.pid, c.confirmed, c.lifetime,
+             match c.due with | some (t, _) => Json.num t | none => Json.null]
+
+def jDet : Option Det → Json
+  | none => Json.null
+  | some d => Json.mkObj [
+      ("subs", Json.arr (d.subs.map jSub).toArray),
+      ("trig", d.triggered),
+      ("prev", jIntOpt d.prev),
+      ("ptask", match d.ptask with | some (t, _) => Json.num t | none => Json.null)]
+
+def jObj (ob : Obj) : Json :=
+  Json.mkObj [("id", ob.id), ("pv", jInt ob.pv), ("fl", ob.flags), ("inc", jInt ob.inc), ("det", jDet ob.det)]
+
+/-- canonical rendering of a deferred entry: is its detection object still the
+    registered one, and (initial) is its subscription still listed -/
+def jDeferred (s : State) : Deferred → Json
+  | .exec o g =>
+    let live := match findObj s o with
+      | some ob => (match ob.det with | some d => d.gen == g | none => false)
+      | none => false
+    Json.arr #["exec", o, live]
+  | .initial o g sid =>
+    let d? := match findObj s o with
+      | some ob => (match ob.det with | some d => if d.gen == g then some d else none | none => none)
+      | none => none
+    match d? with
+    | none => Json.arr #["init", o, false, Json.null, Json.null]
+    | some d =>
+      match d.subs.find? (fun c => c.sid == sid) with
+      | some c => Json.arr #["init", o, true, c.addr, c.pid]
+      | none => Json.arr #["init", o, true, Json.null, Json.null]
+
+def digest (s : State) : Json :=
+  Json.mkObj [("objs", Json.arr (s.objs.map jObj).toArray),
+              ("dq", Json.arr (s.deferred.map (jDeferred s)).toArray)]
+
+def reply (s : State) (outs : List Out) (br : String) : Json :=
+  jOk [("out", Json.arr (outs.map jOut).toArray),
+       ("now", s.now),
+       ("deadline", jNatOpt (minTime (armedTasks s))),
+       ("digest", digest s),
+       ("br", br)]
+
+def objOfJson (j : Json) : R Obj := do
+  let id ← fldNat j "id"
+  let ty ← fldStr j "type"
+  match typeInfo ty with
+  | .unknownType => throw s!"unknown object type {ty}"
+  | .outOfScope => throw s!"criteria class of {ty} is outside the model"
+  | .info cov crit =>
+    pure { id := id, supportsCov := cov, crit := crit,
+           pv := ← fldInt j "pv", flags := ← fldNat j "flags", inc := ← fldInt j "inc",
+           period := ← fldNat j "period", det := none }
+
+def nOuts (outs : List Out) : String :=
+  let n := (outs.filter (fun o => match o with | .notify .. => true | _ => false)).length
+  if n ≥ 3 then "3+" else toString n
+
+def brSub (s : State) (a p o : Nat) (cancel : Bool) (outs : List Out) : String :=
+  match outs with
+  | [.error _ .unknownObject] => "sub:unknown-object"
+  | [.error _ .covSubscriptionFailed] => "sub:not-supported"
+  | _ =>
+    let ob? := findObj s o
+    let d? := ob?.bind (·.det)
+    let found := match d? with | some d => (findSub d.subs a p).isSome | none => false
+    let kind := match ob?.bind (·.crit) with
+      | some c => if c.pulse then "pulse" else if c.incr then "incr" else "generic"
+      | none => "?"
+    let others := match d? with | some d => if d.subs.length ≥ 2 then "+" else toString d.subs.length | none => "nodet"
+    s!"sub:{kind}:{if cancel then "cancel" else "sub"}:{if found then "existing" else "absent"}:{others}"
+
+def brWrite (tag : String) (s s' : State) (o : Nat) : String :=
+  match findObj s o with
+  | none => s!"{tag}:no-object"
+  | some ob =>
+    match ob.det with
+    | none => s!"{tag}:no-detection"
+    | some d =>
+      let kind := match ob.crit with
+        | some c => if c.pulse then "pulse" else if c.incr then "incr" else "generic"
+        | none => "?"
+      if d.triggered then s!"{tag}:{kind}:already-triggered"
+      else if s'.deferred.length > s.deferred.length then s!"{tag}:{kind}:trigger:{if d.prev.isSome then "prev" else "first"}"
+      else s!"{tag}:{kind}:quiet:{if d.prev.isSome then "prev" else "first"}"
+
+def handle (s : State) (j : Json) : R (State × Json) := do
+  match ← fldStr j "op" with
+  | "reset" =>
+      let objs ← (← fldArr j "objs").toList.mapM objOfJson
+      let s' := { init objs with now := fldNatD j "now" 0 }
+      pure (s', reply s' [] "reset")
+  | "sub" =>
+      let a ← fldNat j "addr"; let p ← fldNat j "pid"; let o ← fldNat j "obj"
+      let c ← fldOptBool j "conf"; let l ← fldOptNat j "life"
+      let (s', outs) := apply s (.subscribe a p o c l)
+      pure (s', reply s' outs (brSub s a p o (c.isNone && l.isNone) outs))
+  | "wpv" =>
+      let o ← fldNat j "obj"; let v ← fldInt j "v"
+      let (s', outs) := apply s (.writePv o v)
+      pure (s', reply s' outs (brWrite "wpv" s s' o))
+  | "wfl" =>
+      let o ← fldNat j "obj"; let v ← fldNat j "v"
+      let (s', outs) := apply s (.writeFlags o v)
+      pure (s', reply s' outs (brWrite "wfl" s s' o))
+  | "winc" =>
+      let o ← fldNat j "obj"; let v ← fldInt j "v"
+      let (s', outs) := apply s (.writeInc o v)
+      pure (s', reply s' outs (brWrite "winc" s s' o))
+  | "run" =>
+      let (s', outs) := apply s .run
+      pure (s', reply s' outs s!"run:q{min s.deferred.length 3}:n{nOuts outs}")
+  | "step" =>
+      let dt ← fldNat j "dt"
+      let (s', outs) := apply s (.step dt)
+      let fired := (armedTasks (advance (run s).1 dt)).filter (fun k => k.t ≤ (advance (run s).1 dt).now)
+      let kinds := fired.map (fun k => match k.ref with | .expiry _ => "x" | .periodic _ => "p")
+      pure (s', reply s' outs s!"step:{String.join (kinds.take 3)}:n{nOuts outs}")
+  | "read" =>
+      let rows := activeList s
+      let jr (r : Row) : Json := Json.arr #[r.addr, r.pid, r.obj, r.confirmed,
+        (match r.remaining with | some i => jInt i | none => Json.str "raised"), jIntOpt r.inc]
+      pure (s, jOk [("rows", Json.arr (rows.map jr).toArray), ("br", s!"read:{min rows.length 4}")])
+  | op => throw s!"unknown op {op}"
+
+def main : IO Unit := loopS (init []) handle
